@@ -8,7 +8,7 @@ from . import stoglib as SL
 
 ID = "C17"
 CHECKER = "chk_merge"
-THEOREMS = ['C17_stored_F_formula', 'C17_stored_F_readable', 'C17_stored_S_formula', 'C17_curves_consistent', 'C17_absent_keys_are_defaults', 'C17_nan_scrub_identity']
+THEOREMS = ['C17_stored_F_formula', 'C17_stored_F_readable', 'C17_stored_S_formula', 'C17_curves_consistent', 'C17_absent_keys_are_defaults', 'C17_nan_scrub_identity', 'C17_merge_pieces', 'C17_merge_items', 'C17_merge_data', 'C17_merge_data_state']
 RULE = ("every subset of the documented option keys (Merging, Merging.Y, .Y.Scale, .Y.Offset, Merging['Q[S(Q)-1]'], its Y, .Scale, .Offset) "
         "-- exhaustive -- x sampled scale/offset values x sampled merged data with Q>0; non-trivial = some option changes the curve; "
         "distinct by input hash")
@@ -30,9 +30,9 @@ def build(shape, rng):
     y, f = shape
     m = {}
     if y is not None:
-        m["Y"] = {k: (rng.choice([1.0, 2.0, rng.uniform(0.5, 1.5)]) if k == "Scale" else rng.choice([0.0, 0.25, rng.uniform(-0.3, 0.3)])) for k in sorted(y)}
+        m["Y"] = {k: (rng.choice([1.0, 2.0, 0.0, -1.0, rng.uniform(0.5, 1.5)]) if k == "Scale" else rng.choice([0.0, 0.25, rng.uniform(-0.3, 0.3)])) for k in sorted(y)}
     if f is not None:
-        m["Q[S(Q)-1]"] = {} if f == "noY" else {"Y": {k: (rng.uniform(0.5, 1.5) if k == "Scale" else rng.uniform(-0.3, 0.3)) for k in sorted(f)}}
+        m["Q[S(Q)-1]"] = {} if f == "noY" else {"Y": {k: (rng.choice([rng.uniform(0.5, 1.5), 1.0, 0.0]) if k == "Scale" else rng.choice([rng.uniform(-0.3, 0.3), 0.0])) for k in sorted(f)}}
     return m
 
 
